@@ -13,7 +13,8 @@ LEVEL = "exploration"
 RULE = (
     "2, 4, 8 and 16 threads start together on a barrier and each loops over its own seeded Tasklang programs "
     "(harness batch items of 3 kinds, DebugBatchItems, contexts, scoped values, sync re-entry, failures), a "
-    "deduplicate scenario in which every thread calls the same function with the same arguments, batch-free programs driven "
+    "hand-off round in which every thread computes with .value() a task object that the next thread built but did not start "
+    "(alone: built and computed on the same thread), a deduplicate scenario in which every thread calls the same function with the same arguments, batch-free programs driven "
     "through asyncio.run(fn.asyncio()) in one thread out of three per round (the others must never see asyncio mode), and - in separate "
     "process-wide configurations - COLLECT_PERF_STATS with profiler.flush() after every round (no reset at thread "
     "start). sys.setswitchinterval(1e-6) plus time.sleep(0) at harness hook points (task steps, flush bodies, context "
@@ -64,7 +65,27 @@ PRIO = ("kindonly", [5, 9, -3])
 SWITCH_LOG = []
 DBG_OWNER = {}
 DEDUP_OWNER = {}
+EXCHANGE = {}
 _state = {}
+
+
+def handoff_prog(seed, tid):
+    prog = gen.generate(tl.case_seed(seed, "C16h", tid), PROFILE)
+    root = prog["nodes"][prog.get("root", 0)]
+    if root["style"] not in ("asynq", "method", "proxy", "classmethod", "staticmethod", "explicit"):
+        root["style"] = "asynq"  # a generator task: nothing of the body runs when the task object is built
+    return prog
+
+
+def build_handoff(seed, owner):
+    """Builds - on the calling thread - the root task object of `owner`'s hand-off program, not started."""
+    from .. import harness
+
+    prog = handoff_prog(seed, owner)
+    rt = harness.HarnessRT(prog, prio=PRIO, seed=seed)
+    root = lang.Frame(prog.get("root", 0), (), None)
+    rt.prebuilt = harness.make_task(rt.style_of(root.nid), rt, root)
+    return rt
 
 
 def plan(tier, seed, build, scale):
@@ -174,6 +195,22 @@ def loop(tid, nthreads, rounds, seed, perf, out, barrier=None):
             digest.append((repr(o[:2]), tl.digest(rt.log)))
             for v in rt.violations[:2]:
                 viol.append((v["oracle"], v["detail"]))
+        # hand-off: the task object computed here was built (not started) by the next thread; alone, by this one
+        src = (tid + 1) % nthreads
+        if barrier is not None:
+            EXCHANGE[tid] = build_handoff(seed, tid)
+            barrier.wait()
+            rt = EXCHANGE[src]
+        else:
+            rt = build_handoff(seed, src)
+        rt.label = "T%d" % tid
+        install_probes(rt, tid, viol, lambda: jr.random() < 0.3)
+        o = rt.run("prebuilt")
+        digest.append(("handoff", repr(o[:2]), tl.digest(rt.log)))
+        for v in rt.violations[:2]:
+            viol.append((v["oracle"], v["detail"]))
+        if barrier is not None:
+            barrier.wait()
         # one thread in three also drives a batch-free program through asyncio in this round
         if (r + tid) % 3 == 0:
             import asyncio
@@ -313,7 +350,7 @@ def run_unit(unit, progress):
             if r < len(solo[tid]) and rec["digest"] != solo[tid][r]["digest"]:
                 a, b = rec["digest"], solo[tid][r]["digest"]
                 k = next((j for j in range(min(len(a), len(b))) if a[j] != b[j]), min(len(a), len(b)))
-                what = "program %d" % k if k < 3 else ("deduplicate" if k == 3 else "profiler")
+                what = a[k][0] if k < len(a) and a[k][0] in ("handoff", "asyncio", "dd", "profiler") else "program %d" % k
                 viol.append(("digest-differs-from-solo-run", {"thread": tid, "round": r, "part": what, "concurrent": repr(a[k] if k < len(a) else None)[:120], "alone": repr(b[k] if k < len(b) else None)[:120]}))
             for v in viol[:2]:
                 if len(res["violations"]) < 8:
